@@ -47,6 +47,17 @@ Clauses(r) ==
             <<"rpc-wire-parameters", (r.out.sent /\ Len(r.out.params) = Len(e.params)) =>
                                        \A i \in 1..Len(e.params) : JMatch(e.params[i], r.out.params[i])>>,
             <<"rpc-wire-version-1.1", r.out.sent => r.out.version = <<49, 46, 49>> >> >>
+    [] r.op = "x.redeem" ->
+         LET e == RedeemScriptOf(r.in.a) IN
+         << <<"to_redeemScript", IF e.ok THEN (r.out.k = "ret" /\ r.out.s = e.s) ELSE (r.out.k = "exc" /\ r.out.cls = "NotImplementedError")>>,
+            <<"to_scriptPubKey", r.out.spk = ToScript(r.in.a)>> >>
+    [] r.op = "x.p2shaddr" ->
+         LET e == P2SHOfRedeem(r.in.redeem) IN
+         << <<"from_redeemScript", IF e.ok THEN (r.out.k = "ret" /\ r.out.text = ToText(r.chain, e.a)) ELSE (r.out.k = "exc" /\ r.out.cls = "ValueError")>> >>
+    [] r.op = "x.frompubkey" ->
+         LET e == P2PKHOfPubKey(r.in.pub, r.in.accept) IN
+         << <<"from_pubkey", IF e.ok THEN (r.out.k = "ret" /\ r.out.text = ToText(r.chain, e.a))
+                             ELSE (r.out.k = "exc" /\ r.out.cls = "CBitcoinAddressError")>> >>
     [] OTHER -> << <<"unknown-op", FALSE>> >>
 TraceInit == l = TraceStart
 TraceNext == l <= Len(Recs) /\ Judge(Recs[l], Clauses(Recs[l])) /\ l' = l + 1
